@@ -54,7 +54,7 @@ class Prop(PropBase):
         n = 2000 if tier == "quick" else 40000
         for i in range(n):
             nops = rng.choice([2, 3, 5, 8, 13, 21, 34, 60]) if tier == "quick" else rng.choice([3, 8, 21, 60, 150, 400])
-            line = tg.history(rng, nops, sized=True, ops_weights=CURSOR_WEIGHTS, inputs=(i % 3 == 0))
+            line = tg.history(rng, nops, sized=True, ops_weights=CURSOR_WEIGHTS, inputs=(i % 3 == 0), localised=(i % 5 == 2))
             cs.append(Case(line, tag="history", nontrivial=line.count(";") > 2, cfgs=tg.configs(rng, 3)))
         # correspondence only (outside the declared-size domain of the oracle): no size declared at all, and degenerate
         # declarations (zero / negative extents) - what the record holds there is still tied to the model
